@@ -153,6 +153,7 @@ def body(case, rec):
     xs = [u * L for u in us]
     for c in ps:
         xs.extend([c, float(np.nextafter(c, -1.0)), float(np.nextafter(c, 1e9))])
+        xs.extend([c + d for d in (1e-9, 8e-9, 1e-8, 1e-7, -1e-9, -8e-9, -1e-8, -1e-7)])
     xs = sorted({min(max(x, 0.0), L) for x in xs})
     try:
         with repo.quiet():
@@ -170,6 +171,21 @@ def body(case, rec):
                 rec.violation(B('eval_' + how), {'x': x, 'got': got.tolist(), 'expected': want[0].tolist(),
                                                  'at_break': x in ps}, case)
                 return
+    # integer-typed parameter arrays are legitimate arc lengths too
+    ints = np.arange(0, int(math.floor(L)) + 1)
+    try:
+        with repo.quiet():
+            vi = np.asarray(gam.eval(ints), dtype=float)
+    except Exception as ex:
+        if meshdrive.exc_site(ex) == 'harness':
+            raise
+        rec.violation(B('eval_exception_int_array'), {'error': repr(ex)}, case)
+        return
+    for k, x in enumerate(ints):
+        want = [g.point(i, float(x)).ravel() for i in g.sides_at(float(x))]
+        if vi.shape[0] != 2 or min(float(np.max(np.abs(vi[:, k] - w))) for w in want) > tol:
+            rec.violation(B('eval_int_array'), {'x': int(x), 'got': vi[:, k].tolist() if vi.shape[0] == 2 else 'shape', 'expected': want[0].tolist()}, case)
+            return
     if g.closed:
         with repo.quiet():
             p0 = np.asarray(gam.eval(0.0), dtype=float).ravel()
